@@ -119,3 +119,73 @@ def find_fn(ex, suffix, contains=None):
     if len(c) != 1:
         raise KeyError(f"{suffix}: {len(c)} candidates: {[f.name for f in c][:5]}")
     return c[0]
+
+
+class SystemWorld:
+    """An arbitrary CasInner<K>: index state (IndexWorld), pending intents, WAL manager position,
+    configuration bits — everything the public operations read."""
+
+    def __init__(self, ex, st, U=3, HU=3, intents="arbitrary", sync_mode="sync", writer="arbitrary", N=None):
+        from iomodel import IoModel, P
+        self.ex = ex
+        if ex.models.io_hook is None:
+            IoModel(ex.models)
+        self.io = ex.models.io_hook
+        self.iw = IndexWorld(ex, st, U=U, HU=HU)
+        w = self.iw
+        pc = st.pc
+        # pending intents (other in-flight commits): arbitrary or empty
+        self.ip = [z3.Bool(f"w_ip{i}") for i in range(U)]
+        self.ih = [z3.Int(f"w_ih{i}") for i in range(U)]
+        present = z3.K(z3.IntSort(), z3.BoolVal(False))
+        col = z3.K(z3.IntSort(), z3.IntVal(0))
+        for i in range(U):
+            if intents == "empty":
+                pc.append(z3.Not(self.ip[i]))
+            present = z3.Store(present, w.keys[i], self.ip[i])
+            col = z3.Store(col, w.keys[i], self.ih[i])
+            pc.append(z3.Or([self.ih[i] == g for g in w.hashes]))
+        self.intents = VMap("hash", "K", present, {"v": col}, ("sym", "H"))
+        # WAL manager
+        self.N = z3.Int("w_N")
+        self.next = z3.Int("w_next")
+        if N is not None:
+            self.N = z3.IntVal(N)   # concrete segment size: keeps every path condition linear
+        pc += [self.N >= 1, self.N <= U64, self.next >= 1, self.next <= U64 - 1]
+        pc.append(w.lpv < self.next)
+        self.has_writer = z3.Bool("w_has_writer")
+        self.writer_seg = z3.Int("w_writer_seg")
+        pc += [self.writer_seg >= 0, self.writer_seg <= U64]
+        wf = self.io.new_file(st, ("wal", self.writer_seg), append=True, create=True)
+        sw = VStruct("SegmentWriter", [VStruct("BufWriter", [wf, VVec([])]), VInt(self.writer_seg, "u64")])
+        if writer == "none":
+            pc.append(z3.Not(self.has_writer))
+        aw = sym_option(self.has_writer, sw)
+        self.wal = VStruct("WalManager", [VInt(self.N, "u64"), VInt(self.next, "u64"),
+                                          VStruct("SegmentStorage", [VStruct("DbPaths", [VOpaque("dbpaths")])]), aw])
+        paths = VStruct("DbPaths", [VOpaque("dbpaths")])
+        self.index = VStruct("Index", [
+            paths,
+            VStruct("Arc", [VStruct("RwLock", [w.value, VOpaque("lockname", "state")])]),
+            VStruct("Mutex", [self.wal, VOpaque("lockname", "wal")]),
+            VStruct("Mutex", [self.intents, VOpaque("lockname", "pending_intents")])])
+        self.precreated = z3.Bool("w_precreated")
+        self.casmgr = VStruct("CasManager", [paths.clone(), VBool(self.precreated)])
+        lockfile = self.io.new_file(st, ("lock",), write=True)
+        chan = none() if sync_mode == "sync" else some(VOpaque("sender"))
+        self.cas = VStruct("CasInner", [paths.clone(), self.index, VStruct("Arc", [self.casmgr]), lockfile, chan])
+        self.cas_ref = VRef(st.alloc(self.cas))
+        self.index_ref = VRef(self.cas_ref.cell, (1,))
+        self.state_ref = VRef(self.cas_ref.cell, (1, 1, 0, 0))
+        self.intents_ref = VRef(self.cas_ref.cell, (1, 3, 0))
+        self.wal_ref = VRef(self.cas_ref.cell, (1, 2, 0))
+
+    def sym_key(self, st, name):
+        k = z3.Int(name)
+        st.pc.append(z3.Or([k == u for u in self.iw.keys]))
+        return k
+
+    def sym_hash(self, st, name):
+        h = z3.Int(name)
+        st.pc.append(z3.Or([h == g for g in self.iw.hashes]))
+        return h
